@@ -2,15 +2,21 @@
 evaluated on the real code and compared with their physical invariances and closed-form values.
 
 Bounded: 2-d meshes <= 16 cells per axis (charge), 3-d meshes <= 10 cells per axis (hedgehog), <= 6 (angles,
-emergent field), <= 5 (demag); seeded textures, masks, rotations, rescalings."""
+emergent field), <= 5 (demag); seeded textures, masks, rotations, rescalings.
+
+The lattice (Berg-Luescher) method is additionally compared with an independent oracle on the whole range of
+spherical triangles (Girard's theorem in 200-bit arithmetic): the signed solid angle itself, the per-cell density
+with validity handling, and the charge of coarse / rough closed textures (neighbouring vectors up to ~179 degrees apart)."""
 import itertools
 import math
 import warnings
 
+import mpmath as mp
 import numpy as np
 import discretisedfield as df
 import discretisedfield.tools as dft
 from discretisedfield.tools import tools as _tools
+from discretisedfield.util import util as _dfu
 
 from .common import raises
 
@@ -26,6 +32,12 @@ CLAUSES = {
     "C19.reversal": "Q (both methods) changes sign when all vectors are reversed; the absolute charge does not change; |Q(-f)+Q(f)| <= 1e-10*max(1, int|q|)",
     "C19.uniform_zero": "density and charge (both methods, with and without absolute) vanish for uniform fields, for every validity mask; |.| <= 1e-12",
     "C19.bl_integer": "Berg-Luescher charge of a compactly supported texture winding w times with polarity p (two uniform boundary layers) is the integer -w*p, |Q+w*p| <= 1e-9, also after a global rotation of the vectors (then integer: the same one)",
+    "C19.bl_integer_coarse": "the same on coarse meshes (6..8 cells per axis, one uniform boundary layer, |w| = 1, both polarities, radius >= 1.5 cell half-diagonals*sqrt2, neighbouring vectors up to > 100 deg apart): Berg-Luescher charge is the integer -w*p, |Q+w*p| <= 1e-9, after a global rotation the same integer, after reversal of all vectors +w*p",
+    "C19.bl_angle_value": "util.bergluescher_angle(v1,v2,v3) is the signed area/(4 pi) of the geodesic triangle v1 v2 v3 (sign of v1.(v2 x v3); oracle: Girard's angle excess in 200-bit arithmetic) for all non-exceptional triangles - small, needle-like, larger than a quarter sphere, nearly a hemisphere, nearly antipodal pairs; budget 16 eps/rho + 4 eps with rho = sqrt(2(1+v1.v2)(1+v2.v3)(1+v3.v1)) the conditioning of the phase; exactly 0 for coplanar vectors in a half plane or repeated vectors; +-1/8 for octants, +-1/4 for tetrahedron faces",
+    "C19.bl_angle_range": "the signed area/(4 pi) lies in [-1/2, 1/2]",
+    "C19.bl_angle_sym": "bergluescher_angle is invariant under cyclic permutation of the three vectors and changes sign under a transposition and under reversal of all three vectors (same budget)",
+    "C19.density_bl": "Berg-Luescher density at a valid cell equals (sum of the oracle signed areas/(4 pi) of its right-angle triangles (v0,v_i+,v_j+),(v0,v_j+,v_i-),(v0,v_i-,v_j-),(v0,v_j-,v_i+) whose two neighbours exist and are valid) / (number of such triangles * half the cell area); 0 at invalid cells and at cells without a triangle; scalar field on the same mesh; budget sum(32 eps/rho + 8 eps) of the triangles; the charge is the cell-area weighted sum of that",
+    "C19.bl_two_triangulations": "for a closed lattice texture (one uniform boundary layer, arbitrary - also random - interior, no mask) the Berg-Luescher charge is (N_A+N_B)/2 with N_A, N_B the whole-number wrappings of the two diagonal triangulations (oracle); when they coincide (wrapping number well defined) it is that integer, |Q-N| <= 1e-9 (budget of the triangles if larger)",
     "C19.known_sign": "the continuous charge of such a whole wrap has the sign of the known charge -w*p (its magnitude is resolution dependent, not claimed)",
     "C19.density_continuous": "continuous density at cells whose 4 neighbours are valid equals n.(d1 n x d2 n)/(4 pi) with central differences of the unit field (tolerance 256 ulp of (1/(d1*d2))/(4pi)); returned field is scalar on the same mesh",
     "C19.charge_integral": "topological_charge == sum(density)*cell area; absolute=True == sum|density|*cell area >= |Q| (256 ulp of int|q|)",
@@ -46,13 +58,23 @@ RULE = ("seeded textures (compact skyrmions of winding -2..3, smooth random, rou
         "non-default dims/units/vdims/permuted mapping x masks (none, random, zero vectors with valid='norm', unmasked zero vectors) "
         "x random proper rotations, rescalings 1e-12..1e12, mesh scalings/translations, k=1..3 quarter turns; hedgehogs with seeded "
         "centres on anisotropic 3-d meshes; seeded vector fields for angles/emergent field; cuboids of several aspect ratios with cubic and "
-        "non-cubic cells for the demagnetisation clauses; non-trivial = more than one cell and a non-uniform texture (except the uniform kinds); "
+        "non-cubic cells for the demagnetisation clauses; Berg-Luescher on large triangles: seeded triples of unit vectors by class (uniform random, wide = both "
+        "neighbours 100..179 deg from the corner, nearly a hemisphere, quarter-sphere boundary, needle, tiny, nearly antipodal pair, exact octants / tetrahedron "
+        "faces / coplanar), sharp skyrmions of radius 1.5..2.2 cells on 6..8 cell meshes (both polarities, both chiralities, reversed, rotated), rough lattices "
+        "(random unit vectors, random interior inside a uniform frame) x masks (none, random, valid='norm') for the per-cell lattice density; non-trivial = more than one cell and a non-uniform texture (except the uniform kinds); "
         "distinct by (kind, params)")
 ASSUMPTIONS = [
     "bounded: 2-d meshes of at most 16 cells per axis, 3-d meshes of at most 10 cells per axis, seeded sample of textures, masks, rotations and scalings",
     "rounding budgets are stated in the clause texts (1e-10 absolute on O(1) charges; a-priori forward error bound for the 64-term Newell differences)",
     "hedgehog counting is a finite-difference estimate: only meshes with >= 8 cells per axis and a centre in the central 30% are claimed",
     "demag_trace is read modulo the translation phase of the centred tensor origin (literal '-1' without phase does not hold by construction of Field.fftn)",
+    "Berg-Luescher exceptional configurations are not claimed (the signed area is undefined there): an exactly antipodal pair in a triangle, three vectors on a great "
+    "circle surrounding the origin; near-exceptional triangles are claimed within the stated conditioning budget (nearly-hemisphere triangles are generated with |triple product| >= 1e-9)",
+    "the library averages the two diagonal triangulations of every plaquette: for rough closed textures on which the two triangulations wrap a different whole number "
+    "of times the charge is a half-integer; integrality is claimed only where both agree (wrapping number well defined), the value (N_A+N_B)/2 always",
+    "coarse whole wraps: |w| = 1 and radius >= 1.5*sqrt((d1^2+d2^2)/2) (the four cells nearest to the core lie beyond the equator wherever the centre sits); below ~1.41 the sampled "
+    "texture no longer wraps the sphere and nothing is claimed",
+    "oracle for the signed solid angle: Girard's theorem (sum of the three dihedral angles - pi) evaluated with mpmath at 200 bits on the exact double inputs (treated as directions)",
     "Aharoni's closed form for the demagnetising factors of a rectangular prism is trusted as oracle",
 ]
 
@@ -92,6 +114,9 @@ def _texture2d(tex, n, cell):
         c = half + np.asarray(tex["c"]) * np.asarray(cell)
         # two uniform boundary layers: R <= distance from the centre to the second cell layer
         R = float(np.min(half - 1.5 * np.asarray(cell) - np.abs(np.asarray(tex["c"]) * np.asarray(cell)))) * 0.999
+        if "rho" in tex:
+            # sharp texture: radius given in units of the cell half-diagonal*sqrt2 (= cells, for square cells); the generator leaves one uniform layer
+            R = float(tex["rho"]) * float(np.hypot(*np.asarray(cell, dtype=float))) / math.sqrt(2.0)
         x, y = X[..., 0] - c[0], X[..., 1] - c[1]
         r = np.hypot(x, y)
         phi = np.arctan2(y, x)
@@ -108,6 +133,12 @@ def _texture2d(tex, n, cell):
     rng = np.random.default_rng(tex["seed"])
     if t == "random":
         return rng.normal(size=(*n, 3)) * tex.get("length", 1.0)
+    if t == "frame":
+        # closed rough lattice texture: random vectors (varying lengths) inside one layer of a uniform background direction
+        a = rng.normal(size=(*n, 3))
+        bg = np.asarray(tex["bg"], dtype=float)
+        a[0, :], a[-1, :], a[:, 0], a[:, -1] = bg, bg, bg, bg
+        return a * tex.get("length", 1.0)
     if t == "smooth":
         a = np.zeros((*n, 3))
         L = np.asarray(n) * np.asarray(cell)
@@ -188,6 +219,150 @@ def _aharoni(L):
     return [_aharoni_nz(b, c, a), _aharoni_nz(c, a, b), _aharoni_nz(a, b, c)]
 
 
+def _mp_dot(a, b):
+    return a[0] * b[0] + a[1] * b[1] + a[2] * b[2]
+
+
+def _mp_cross(a, b):
+    return [a[1] * b[2] - a[2] * b[1], a[2] * b[0] - a[0] * b[2], a[0] * b[1] - a[1] * b[0]]
+
+
+def _omega_oracle(v1, v2, v3):
+    """(signed area/(4 pi) of the geodesic triangle of the three directions as mpf, rho as float).
+    Girard's theorem: area = (sum of the three interior angles) - pi, each interior angle = angle between the two great-circle planes meeting at the
+    vertex; sign = orientation = sign of the triple product. 200-bit arithmetic on the exact doubles (products of three doubles are exact at 159 bits).
+    Exactly coplanar: 0 (exceptional when the three surround the origin - not generated); a zero vector: 0 and rho = inf."""
+    with mp.workprec(200):
+        V = [[mp.mpf(float(x)) for x in v] for v in (v1, v2, v3)]
+        if any(_mp_dot(v, v) == 0 for v in V):
+            return mp.mpf(0), math.inf
+        T = _mp_dot(V[0], _mp_cross(V[1], V[2]))
+        V = [[x / mp.sqrt(_mp_dot(v, v)) for x in v] for v in V]
+        rho = mp.sqrt(2 * (1 + _mp_dot(V[0], V[1])) * (1 + _mp_dot(V[1], V[2])) * (1 + _mp_dot(V[2], V[0])))
+        if T == 0:
+            return mp.mpf(0), float(rho)
+        exc = -mp.pi
+        for k in range(3):
+            a, b, c = V[k], V[(k + 1) % 3], V[(k + 2) % 3]
+            n1, n2 = _mp_cross(a, b), _mp_cross(a, c)
+            exc += mp.acos(_mp_dot(n1, n2) / mp.sqrt(_mp_dot(n1, n1) * _mp_dot(n2, n2)))
+        return mp.sign(T) * exc / (4 * mp.pi), float(rho)
+
+
+def _bl_cell_triangles(arr, valid, i, j):
+    """the library's documented stencil: right-angle triangles at cell (i, j) whose two neighbours exist and are valid, counter-clockwise"""
+    n0, n1 = valid.shape
+    nb = [(i + 1, j), (i, j + 1), (i - 1, j), (i, j - 1)]
+    ok = [0 <= a < n0 and 0 <= b < n1 and bool(valid[a, b]) for a, b in nb]
+    return [(k, nb[k], nb[(k + 1) % 4]) for k in range(4) if ok[k] and ok[(k + 1) % 4]]
+
+
+def _bl_lattice_oracle(arr, valid):
+    """per cell: (sum of oracle areas as mpf, triangle count, rounding budget, [area of triangle k or None]*4)"""
+    out = {}
+    for i in range(valid.shape[0]):
+        for j in range(valid.shape[1]):
+            if not valid[i, j]:
+                out[i, j] = (mp.mpf(0), 0, 0.0, [None] * 4)
+                continue
+            tot, cnt, bud, per = mp.mpf(0), 0, 0.0, [None] * 4
+            for k, p, q in _bl_cell_triangles(arr, valid, i, j):
+                w, rho = _omega_oracle(arr[i, j], arr[p], arr[q])
+                per[k] = w
+                with mp.workprec(200):
+                    tot = tot + w
+                cnt += 1
+                bud += 32 * EPS / rho + 8 * EPS
+            out[i, j] = (tot, cnt, bud, per)
+    return out
+
+
+ANGLE_CLASSES = ("random", "wide", "hemisphere", "quarter", "needle", "tiny", "antipodal")
+
+
+def _sph(polar, azim):
+    return np.array([np.sin(polar) * np.cos(azim), np.sin(polar) * np.sin(azim), np.cos(polar)])
+
+
+def _triples(cls, seed, count):
+    """(count, 3, 3) double unit vectors (to rounding) of the class; every triple is rotated by its own random proper rotation and
+    its orientation (sign) is random"""
+    rng = np.random.default_rng(seed)
+    out = []
+    for _ in range(count):
+        if cls == "random":
+            v = rng.normal(size=(3, 3))
+        elif cls == "wide":
+            # lattice-like: both neighbours 100..179 degrees away from the corner vector -> mostly more than a quarter of the sphere
+            al = np.radians(rng.uniform(100, 179, size=2))
+            az = rng.uniform(0, 2 * np.pi, size=2)
+            v = np.array([[0.0, 0.0, 1.0], _sph(al[0], az[0]), _sph(al[1], az[1])])
+        elif cls == "hemisphere":
+            # three directions around a great circle, all tilted to the same side by h: area = +-(2 pi - O(h)), |triple product| ~ h >= 1e-9
+            h = 10.0 ** rng.uniform(-8, -0.3)
+            az = 2 * np.pi * np.arange(3) / 3 + rng.uniform(-0.5, 0.5, size=3)
+            v = np.array([_sph(np.pi / 2 - h * (1 + 0.3 * rng.uniform(-1, 1)), a) for a in az])
+        elif cls == "quarter":
+            # symmetric tripod at the polar angle where 1 + v1.v2 + v2.v3 + v3.v1 changes sign (area = pi), +- a small detuning
+            t = math.acos(-1.0 / 3.0) + rng.uniform(-1, 1) * 10.0 ** rng.uniform(-14, -1)
+            # polar angle th of a tripod with mutual angle t: cos t = 1 - 1.5 sin^2 th
+            th = math.asin(math.sqrt((1 - math.cos(t)) / 1.5))
+            th = np.pi - th if rng.random() < 0.5 else th
+            a0 = rng.uniform(0, 2 * np.pi)
+            v = np.array([_sph(th, a0 + 2 * np.pi * k / 3) for k in range(3)])
+        elif cls == "needle":
+            # nearly on a great circle, inside a half circle: tiny area of either sign
+            az = rng.permutation(np.sort(rng.uniform(0, np.radians(170), size=3)))
+            v = np.array([_sph(np.pi / 2 - 10.0 ** rng.uniform(-12, -1) * rng.normal(), a) for a in az])
+        elif cls == "tiny":
+            e = 10.0 ** rng.uniform(-7, -1)
+            v0 = rng.normal(size=3)
+            v0 /= np.linalg.norm(v0)
+            v = np.array([v0, v0 + e * rng.normal(size=3), v0 + e * rng.normal(size=3)])
+        elif cls == "antipodal":
+            # one pair nearly antipodal (distance 1e-6..1e-1 from the exceptional configuration), third vector anywhere
+            v0 = rng.normal(size=3)
+            v0 /= np.linalg.norm(v0)
+            v = np.array([v0, -v0 + 10.0 ** rng.uniform(-6, -1) * rng.normal(size=3), rng.normal(size=3)])
+            v = v[rng.permutation(3)]
+        else:
+            raise ValueError(cls)
+        v = v @ np.asarray(_rot_matrix(rng)).T
+        if rng.random() < 0.5:
+            v = v[[0, 2, 1]]
+        out.append(v / np.linalg.norm(v, axis=1, keepdims=True))
+    return np.asarray(out)
+
+
+def _exact_triples():
+    """(vectors, expected value or None=oracle only, label): integer / closed-form configurations"""
+    out = []
+    E = np.eye(3)
+    for perm in itertools.permutations(range(3)):
+        par = np.linalg.det(E[list(perm)])
+        for sg in itertools.product((1, -1), repeat=3):
+            v = np.array([sg[k] * E[perm[k]] for k in range(3)])
+            out.append((v, par * sg[0] * sg[1] * sg[2] / 8.0, "octant"))
+    out.append((np.array([[1, 0, 0], [0, 1, 0], [0, 0, 1]]), 0.125, "octant-int"))        # integer dtype
+    out.append((np.array([[1, 0, 0], [0, 0, 1], [0, 1, 0]]), -0.125, "octant-int"))
+    tet = np.array([[1, 1, 1], [1, -1, -1], [-1, 1, -1], [-1, -1, 1]]) / math.sqrt(3.0)
+    for tri in itertools.permutations(range(4), 3):
+        v = tet[list(tri)]
+        out.append((v, float(np.sign(np.linalg.det(v))) / 4.0, "tetrahedron-face"))
+    for a, b in ((0.3, 1.1), (2.0, 0.4), (1.0, 3.0), (3.1, 0.02)):                     # coplanar, inside a half plane
+        out.append((np.array([[1.0, 0.0, 0.0], [math.cos(a), math.sin(a), 0.0], [math.cos(b), math.sin(b), 0.0]]), 0.0, "coplanar-half-plane"))
+        out.append((np.array([[0.0, 1.0, 0.0], [0.0, math.cos(a), math.sin(a)], [0.0, math.cos(b), math.sin(b)]]), 0.0, "coplanar-half-plane"))
+    u, w = _sph(0.7, 0.3), _sph(2.9, 4.0)
+    out.append((np.array([u, u, w]), 0.0, "repeated"))
+    out.append((np.array([u, w, u]), 0.0, "repeated"))
+    out.append((np.array([w, u, u]), 0.0, "repeated"))
+    out.append((np.array([u, u, u]), 0.0, "repeated"))
+    cube = np.array(list(itertools.product((1, -1), repeat=3))) / math.sqrt(3.0)
+    for tri in ((0, 1, 2), (0, 3, 5), (0, 6, 3), (1, 2, 7), (0, 3, 6), (7, 1, 4)):    # cube vertices: oracle only (some span > quarter sphere)
+        out.append((cube[list(tri)], None, "cube-vertices"))
+    return out
+
+
 # --------------------------------------------------------------------------------------------- cases
 def _geom2d(rng, lo, hi, aniso=True):
     n = rng.integers(lo, hi + 1, size=2).tolist()
@@ -253,6 +428,49 @@ def cases(ctx):
             pr["tex"]["length"] = float(10.0 ** rng.uniform(-3, 6))
             pr.update(_LABELS[(rep + wind) % len(_LABELS)])
             yield "wrap", pr
+    # ---- Berg-Luescher signed solid angle against the Girard oracle, over the whole range of triangles
+    for rep in range(3 if quick else 24):
+        for cls in ANGLE_CLASSES:
+            yield "bl_angle", {"cls": cls, "seed": int(rng.integers(1 << 30)), "count": 24 if quick else 48}
+    yield "bl_angle_exact", {}
+    # ---- sharp whole wraps on coarse meshes: radius 1.5..2.2 cells, one uniform boundary layer, both polarities and chiralities
+    for rep in range(32 if quick else 400):
+        n = rng.integers(6, 9 if quick else 11, size=2).tolist()
+        scale = float(10.0 ** rng.uniform(-9, 3))
+        cell = (scale * rng.uniform(1.0, 1.25, size=2)).tolist()
+        rho = float(rng.uniform(1.5, 2.2 if rep % 4 else 1.6))         # every fourth at the sharp end
+        R = rho * float(np.hypot(*cell)) / math.sqrt(2.0)
+        # room (in cells) for the centre offset so that the outermost layer stays uniform
+        room = [min(0.5, 0.98 * ((0.5 * n[k] - 0.5) - R / cell[k])) for k in range(2)]
+        if min(room) < 0:
+            continue
+        tex = {"type": "skyrmion", "wind": int(rng.choice([-1, 1])), "pol": int([-1, 1][rep % 2]), "gamma": float(rng.uniform(0, 2 * np.pi)),
+               "c": [float(rng.uniform(-1, 1) * room[k]) for k in range(2)], "rho": rho, "length": float(10.0 ** rng.uniform(-3, 6))}
+        pr = {"n": n, "cell": cell, "p0": (rng.uniform(-3, 3, size=2) * scale * 5).tolist(), "tex": tex, "R": _rot_matrix(rng)}
+        pr.update(_LABELS[rep % len(_LABELS)])
+        yield "wrap_coarse", pr
+    # ---- rough lattices: per-cell lattice density with validity handling; closed rough textures (two triangulations)
+    bl_masks = [None, {"type": "random", "p": 0.15}, {"type": "norm", "p": 0.12}]
+    for rep in range(36 if quick else 420):
+        ttype = ("random", "frame", "skyrmion")[rep % 3]
+        m = None if ttype == "frame" and rep % 2 else bl_masks[(rep // 3) % 3]
+        if ttype == "skyrmion":
+            n = rng.integers(6, 9, size=2).tolist()
+            scale = float(10.0 ** rng.uniform(-9, 3))
+            cell = (scale * rng.uniform(1.0, 1.25, size=2)).tolist()
+            p0 = (rng.uniform(-3, 3, size=2) * scale * 5).tolist()
+            tex = {"type": "skyrmion", "wind": int(rng.choice([-2, -1, 1, 2])), "pol": int(rng.choice([-1, 1])), "gamma": float(rng.uniform(0, 2 * np.pi)),
+                   "c": rng.uniform(-0.5, 0.5, size=2).tolist(), "rho": float(rng.uniform(1.0, 2.5))}      # any radius / winding: value against the oracle only
+        else:
+            n, cell, p0 = _geom2d(rng, 1 if rep % 10 == 9 else 2, 8 if quick else 10)
+            tex = {"type": ttype, "seed": int(rng.integers(1 << 30))}
+            if ttype == "frame":
+                n = [max(3, k) for k in n]
+                tex["bg"] = rng.normal(size=3).tolist()
+        tex["length"] = float(10.0 ** rng.uniform(-3, 6))
+        pr = {"n": n, "cell": cell, "p0": p0, "tex": tex, "mask": None if m is None else dict(m, seed=int(rng.integers(1 << 30)))}
+        pr.update(_LABELS[rep % len(_LABELS)])
+        yield "bl_lattice", pr
     # ---- continuous density oracle / charge as integral
     for rep in range(12 if quick else 150):
         n, cell, p0 = _geom2d(rng, 3, 8)
@@ -403,6 +621,146 @@ def _check_wrap(pr, ctx):
 def _unit(a):
     nrm = np.linalg.norm(a, axis=-1, keepdims=True)
     return np.divide(a, nrm, out=np.zeros_like(a), where=nrm > 0)
+
+
+def _bl_call(v1, v2, v3):
+    r, g = raises(Exception, _dfu.bergluescher_angle, v1, v2, v3)
+    if r:
+        return None, repr(g)
+    try:
+        g = float(g)
+    except Exception as e:          # complex / array result
+        return None, "not a real number: %r (%r)" % (g, e)
+    return g, None
+
+
+def _check_one_triangle(v, ctx, label, expected=None):
+    """value, range and symmetry clauses on one triple of unit vectors v (3, 3)"""
+    w, rho = _omega_oracle(v[0], v[1], v[2])
+    if expected is not None and abs(float(w) - expected) > 1e-30 + (0 if expected == 0 else 4 * EPS):
+        # closed forms and the oracle must agree (1/8 and 1/4 are met to the rounding of the double inputs 1/sqrt3)
+        raise AssertionError("oracle %r differs from the closed form %r (%s)" % (w, expected, label))
+    want = float(w) if expected is None else float(expected)
+    if not (rho > 0):
+        ctx.trivial()               # exceptional configuration: nothing claimed
+        return
+    tol = 16 * EPS / rho + 4 * EPS
+    det = {"vectors": np.asarray(v, dtype=float).tolist(), "cls": label, "rho": rho, "tol": tol,
+           "denominator_1+sum_of_dots": float(1 + v[0] @ v[1] + v[1] @ v[2] + v[2] @ v[0])}
+    g, err = _bl_call(v[0], v[1], v[2])
+    if g is None:
+        ctx.require(False, "C19.bl_angle_value", "bergluescher_angle raised / returned no real number", sig="raised-or-not-real", error=err, **det)
+        return
+    big = det["denominator_1+sum_of_dots"] < 0
+    ctx.require(not math.isnan(g) and abs(g - want) <= tol, "C19.bl_angle_value",
+                "signed solid angle/(4 pi) differs from the area of the geodesic triangle" + (" (triangle larger than a quarter of the sphere)" if big else ""),
+                sig="large-triangle" if big else "small-triangle", got=g, want=want, **det)
+    ctx.require(abs(g) <= 0.5 * (1 + 4 * EPS), "C19.bl_angle_range", "signed area/(4 pi) outside [-1/2, 1/2]", got=g, **det)
+    variants = {"cyclic": ((v[1], v[2], v[0]), 1.0), "cyclic2": ((v[2], v[0], v[1]), 1.0), "transposed": ((v[1], v[0], v[2]), -1.0),
+                "reversed": ((-v[0], -v[1], -v[2]), -1.0)}
+    for name, (vv, sgn) in variants.items():
+        h, err = _bl_call(*vv)
+        ctx.require(h is not None and abs(h - sgn * g) <= 2 * tol, "C19.bl_angle_sym", "bergluescher_angle is not %s under '%s'" % ("invariant" if sgn > 0 else "odd", name),
+                    variant=name, got=h, base=g, error=err, **det)
+
+
+def _check_bl_angle(pr, ctx):
+    for v in _triples(pr["cls"], pr["seed"], pr["count"]):
+        _check_one_triangle(v, ctx, pr["cls"])
+
+
+def _check_bl_angle_exact(pr, ctx):
+    for v, expected, label in _exact_triples():
+        _check_one_triangle(v, ctx, label, expected)
+
+
+def _uniform_frame(arr):
+    b = np.concatenate([arr[0, :], arr[-1, :], arr[:, 0], arr[:, -1]])
+    return bool(np.all(b == b[0])) and bool(np.any(b[0] != 0))
+
+
+def _two_triangulations(orc, n):
+    """(N_A, N_B) as mpf: triangulation A = corner triangles 0 and 2 of every cell (diagonal (i+1,j)-(i,j+1) of each plaquette), B = 1 and 3"""
+    with mp.workprec(200):
+        NA = sum((orc[i, j][3][k] or 0 for i in range(n[0]) for j in range(n[1]) for k in (0, 2)), mp.mpf(0))
+        NB = sum((orc[i, j][3][k] or 0 for i in range(n[0]) for j in range(n[1]) for k in (1, 3)), mp.mpf(0))
+    return NA, NB
+
+
+def _check_wrap_coarse(pr, ctx):
+    n = pr["n"]
+    arr = _texture2d(pr["tex"], n, pr["cell"])
+    ones = np.ones(n, dtype=bool)
+    if not _uniform_frame(arr):
+        ctx.trivial()
+        return
+    want = -pr["tex"]["wind"] * pr["tex"]["pol"]
+    u = _unit(arr)
+    ang = max(float(np.arccos(np.clip(np.einsum("ijk,ijk->ij", u[1:], u[:-1]), -1, 1)).max()),
+              float(np.arccos(np.clip(np.einsum("ijk,ijk->ij", u[:, 1:], u[:, :-1]), -1, 1)).max()))
+    orc = _bl_lattice_oracle(arr, ones)
+    NA, NB = _two_triangulations(orc, n)
+    det = {"oracle_N_A": float(NA), "oracle_N_B": float(NB), "max_neighbour_angle_deg": math.degrees(ang), "radius_cells": pr["tex"]["rho"]}
+    sig = "coarse-texture(neighbours > 100 deg)" if math.degrees(ang) > 100 else "coarse-texture"
+    f = _field2d(pr, arr, ones)
+    for name, g, w in (("as is", f, want), ("rotated", _field2d(pr, arr @ np.asarray(pr["R"]).T, ones), want), ("reversed", _field2d(pr, -arr, ones), -want)):
+        r, Q = raises(Exception, _Q, g, "berg-luescher")
+        if r:
+            ctx.require(False, "C19.bl_integer_coarse", "topological_charge raised", sig="raised:" + type(Q).__name__, variant=name, error=repr(Q))
+            continue
+        ctx.require(abs(Q - round(Q)) <= 1e-9, "C19.bl_integer_coarse", "Berg-Luescher charge of a sharp whole wrap is not an integer (%s)" % name, sig=sig, got=Q, want=w, variant=name, **det)
+        ctx.require(abs(Q - w) <= 1e-9, "C19.bl_integer_coarse", "Berg-Luescher charge of a sharp whole wrap differs from the known winding (%s)" % name, sig=sig, got=Q, want=w, variant=name, **det)
+        Qa = _Q(g, "berg-luescher", absolute=True)
+        ctx.require(Qa >= abs(Q) - 1e-9, "C19.charge_integral", "absolute charge smaller than |charge|", got=Qa, Q=Q, variant=name)
+
+
+def _check_bl_lattice(pr, ctx):
+    n = pr["n"]
+    arr, valid = _mask(pr.get("mask"), _texture2d(pr["tex"], n, pr["cell"]))
+    f = _field2d(pr, arr, valid)
+    vb = (np.linalg.norm(arr, axis=-1) > 0) if isinstance(valid, str) else valid
+    d1, d2 = (float(c) for c in f.mesh.cell)
+    half_area = 0.5 * d1 * d2
+    r, q = raises(Exception, dft.topological_charge_density, f, method="berg-luescher")
+    if r:
+        ctx.require(False, "C19.density_bl", "topological_charge_density raised", sig="raised:" + type(q).__name__, error=repr(q))
+        return
+    okm = q.nvdim == 1 and q.mesh == f.mesh and q.array.shape == (*n, 1)
+    ctx.require(okm, "C19.density_bl", "lattice density is not a scalar field on the same mesh")
+    if not okm:
+        return
+    orc = _bl_lattice_oracle(arr, vb)
+    ntri = sum(c[1] for c in orc.values())
+    if ntri == 0:
+        ctx.trivial()
+    bad, big, Qw, Qb = [], False, mp.mpf(0), 0.0
+    for (i, j), (tot, cnt, bud, per) in orc.items():
+        got = float(q.array[i, j, 0])
+        want = float(tot) / (cnt * half_area) if cnt else 0.0
+        tol = bud / (cnt * half_area) if cnt else 0.0
+        if cnt:
+            with mp.workprec(200):
+                Qw = Qw + 2 * tot / cnt
+            Qb += 2 * bud / cnt
+        if not (abs(got - want) <= tol):
+            bad.append({"cell": [i, j], "got_times_area": got * 2 * half_area, "want_times_area": want * 2 * half_area, "triangles": cnt,
+                        "areas_over_4pi": [None if w is None else float(w) for w in per]})
+            big = big or any(w is not None and abs(w) > 0.25 for w in per)
+    ctx.require(not bad, "C19.density_bl", "lattice density differs from the oracle at %d cell(s)" % len(bad),
+                sig="cell-with-large-triangle" if big else "cell", cells=bad[:4], masked=int((~vb).sum()))
+    Qw = float(Qw)
+    Q = _Q(f, "berg-luescher")
+    ctx.require(abs(Q - Qw) <= Qb + 64 * EPS * max(1.0, abs(Qw)), "C19.density_bl", "lattice charge differs from the weighted sum of the oracle triangle areas", got=Q, want=Qw, tol=Qb)
+    if pr.get("mask") is None and min(n) >= 3 and _uniform_frame(arr):
+        NA, NB = _two_triangulations(orc, n)
+        if abs(NA - mp.nint(NA)) > 1e-30 or abs(NB - mp.nint(NB)) > 1e-30:
+            raise AssertionError("oracle: a triangulation of a closed texture does not wrap a whole number of times: %r %r" % (NA, NB))
+        NA, NB = int(mp.nint(NA)), int(mp.nint(NB))
+        tol = max(1e-9, Qb)
+        ctx.require(abs(Q - 0.5 * (NA + NB)) <= tol, "C19.bl_two_triangulations", "charge of a closed rough texture is not the mean of the two whole-number wrappings", got=Q, N_A=NA, N_B=NB, tol=tol)
+        if NA == NB:
+            ctx.require(abs(Q - NA) <= tol and abs(Q - round(Q)) <= tol, "C19.bl_two_triangulations", "charge of a closed rough texture with a well defined wrapping number is not that integer",
+                        got=Q, want=NA, tol=tol)
 
 
 def _check_density(pr, ctx):
